@@ -234,7 +234,12 @@ fn render_exec(out: &mut String, x: &Exec, dm: Dm, ind: usize) {
         Exec::Send { event, target, delay_ms, id, params, delay_text, delay_expr, idlocation } => {
             out.push_str(&format!("{}<send event=\"{}\"", pad, event));
             if let Some(t) = target {
-                out.push_str(&format!(" target=\"{}\"", esc(t)));
+                if let Some(var) = t.strip_prefix("@var:") {
+                    // the target is the current value of a variable
+                    out.push_str(&format!(" targetexpr=\"{}\"", var));
+                } else {
+                    out.push_str(&format!(" target=\"{}\"", esc(t)));
+                }
             }
             if *delay_ms > 0 || delay_text.is_some() {
                 let txt = delay_text.clone().unwrap_or_else(|| format!("{}ms", delay_ms));
